@@ -270,7 +270,10 @@ fn gen_list_arg_of(ctx: &mut Ctx, r: &mut Rng, elems: Vec<Unifiable>) -> (Unifia
         // pieces: [0..cuts[0]), [cuts[0]..cuts[1]), ..., [cuts[last]..n)
         let mut bounds = vec![0]; bounds.extend(cuts.iter().cloned()); bounds.push(n);
         let npieces = bounds.len() - 1;
-        let tails: Vec<Unifiable> = (0..npieces - 1).map(|_| ctx.fresh()).collect();
+        // (created in either order: the head of the test rule lists the variables in the order of creation, so this decides whether
+        //  the ids grow or shrink along the chain — seeded change C16r11 followed a chain only while the ids grew)
+        let mut tails: Vec<Unifiable> = (0..npieces - 1).map(|_| ctx.fresh()).collect();
+        if r.chance(1, 2) { tails.reverse(); }
         // bind from the back so that every tail is bound before the piece that mentions it is used
         for pi in (1..npieces).rev() {
             let piece = elems[bounds[pi]..bounds[pi + 1]].to_vec();
@@ -436,7 +439,8 @@ pub fn run_c17_random(out: &mut Out, cfg: &Cfg, seed: u64, n: usize, only_filter
             },
             3 => { // functor
                 let arity = r.below(5);
-                let name = *r.pick(&["noun", "noun_phrase", "verb", "n"]);
+                // (names with letters of more than one byte: seeded change C17r11 compared a prefix by its number of characters taken as bytes)
+                let name = *r.pick(&["noun", "noun_phrase", "verb", "n", "café_x", "naïve", "señor_x"]);
                 let mut args = vec![atom!(name)]; for _ in 0..arity { args.push(gen_elem(&mut r, 1)); }
                 let c = ctx.operand(&mut r, Unifiable::SComplex(args));
                 let ar = ctx.fresh();
@@ -445,7 +449,7 @@ pub fn run_c17_random(out: &mut Out, cfg: &Cfg, seed: u64, n: usize, only_filter
                     0 => (res.clone(), true),
                     // the name / the prefix pattern written literally, or reached through a chain of bound variables
                     1 => (ctx.operand(&mut r, atom!(name)), true),
-                    2 => { let p = *r.pick(&["noun*", "n*", "verb*", "x*", "*"]); (ctx.operand(&mut r, atom!(p)), name.starts_with(&p[..p.len()-1])) },
+                    2 => { let p = *r.pick(&["noun*", "n*", "verb*", "x*", "*", "café_m*", "café*", "naïvx*", "naï*", "señor_y*", "señ*"]); (ctx.operand(&mut r, atom!(p)), name.starts_with(&p[..p.len()-1])) },
                     _ => (atom!("zzz"), false),
                 };
                 let ri = var_index(&res); let ai = var_index(&ar); let nm = name.to_string();
